@@ -1,5 +1,6 @@
 import Fabio.Driver.Proto
 import Fabio.Model.C12Parse
+import Fabio.Model.C12Serve
 namespace Fabio.Driver.C12
 open Lean Fabio.Driver Fabio.Model.C12 Fabio.Model.C12.Parse
 
@@ -250,9 +251,10 @@ def gateH : Handler := fun inp impl => do
       let ip := (splitHostPort peer.toList).bind (fun h => parseIP (stripZone h))
       accessDeniedTCP rules (.addr ip)
   let authOk ← if isHTTP then authModel inp else pure true
-  -- `redirect=` is honoured when it is a number in 300..399 (`strconv.Atoi` + range check in addTarget)
+  -- `redirect=` is honoured when it is a number in 300..399 (`strconv.Atoi` + range check in addTarget: model `redirectCode`)
   let redirectS := getStrD inp "redirect"
-  let redirectCode : Option Nat := if isHTTP then (redirectS.toNat?).filter (fun n => 300 ≤ n && n ≤ 399) else none
+  let rc := Fabio.Model.C12.redirectCode redirectS.toList
+  let redirectCode : Option Nat := if isHTTP && rc != 0 then some rc else none
   let steps : List Step := if isHTTP then [.lookup, .access, .auth, .redirect, .upstream] else [.lookup, .access, .upstream]
   let (reply, contacted) := runGate { found := !noroute, denied := denied, authorized := authOk, redirect := redirectCode.isSome } steps false
   let outcome : String := match reply with
@@ -318,6 +320,97 @@ def grpcH : Handler := fun inp impl => do
   return ({ model := m, agree := m == implCore, spec := spec,
             nontrivial := !rules.isEmpty || scheme != "", tag := tag } : Verdict).toJson
 
+def natD (j : Json) (k : String) : Nat := (j.getObjValAs? Nat k).toOption.getD 999999
+
+def arrD (j : Json) (k : String) : List Json := (((j.getObjVal? k).toOption.bind (fun a => a.getArr?.toOption)).getD #[]).toList
+
+/-- c12.multi — routes with several targets (own rules, upstream up or down) behind the real proxies on listeners
+made by `proxy.ListenTCP`, plain or with the PROXY protocol (the announced source is the peer). The k-th lookup of a
+case returns target `k mod n`; model: `serveTCP` / `serveHTTP` of `Model/C12Serve.lean`. -/
+def multiH : Handler := fun inp impl => do
+  let proto := getStrD inp "proto"
+  let pp := getBoolD inp "pp"
+  let targetsJ := arrD inp "targets"
+  let xff ← strList ((inp.getObjVal? "xff").toOption.getD Json.null)
+  let peer := getStrD impl "peer"
+  let kind := getStrD inp "kind"   -- "ws": the websocket handler (hijack + raw dial), "sse": the flushing reverse proxy
+  let n := targetsJ.length
+  let ts : List TargetM := targetsJ.zipIdx.map fun (j, i) =>
+    addTarget goParsers { allow := (getStrD j "allow").toList, deny := (getStrD j "deny").toList } i
+  let aliveOf (u : Nat) : Bool := match targetsJ[u]? with | some j => getStrD j "up" == "live" | none => false
+  let lk (k : Nat) : Option TargetM := if n = 0 then none else ts[k % n]?
+  let isHTTP := proto == "http"
+  let p : Proto := match proto with | "sni" => .sni | "dyn" => .dyn | "http" => .http | _ => .tcp
+  let tcpPeer : TCPPeer := .addr ((splitHostPort peer.toList).bind (fun h => parseIP (stripZone h)))
+  let res := if isHTTP then serveHTTP goParsers lk aliveOf peer.toList xff (fun _ => true) else serveTCP p lk aliveOf tcpPeer
+  let outcome : String := match res with
+    | .noRoute => if isHTTP then "404" else "closed"
+    | .forbidden => if isHTTP then "403" else "closed"
+    | .unauthorized => "401"
+    | .redirected c => toString c
+    | .served _ => if isHTTP then "200" else "echo"
+    | .dialFailed _ => if isHTTP then (if kind == "ws" then "error" else "502") else "closed"
+  let mhits : List Nat := (List.range n).map fun i => match res with | .served u => if u = i then 1 else 0 | _ => 0
+  let m := Json.mkObj [("outcome", outcome), ("hits", Json.arr (mhits.map (fun (h : Nat) => (h : Json))).toArray)]
+  let ihits : List Nat := (arrD impl "hits").map (fun j => j.getNat?.toOption.getD 999)
+  let ioutcome := getStrD impl "outcome"
+  let implCore := Json.mkObj [("outcome", ioutcome), ("hits", Json.arr (ihits.map (fun (h : Nat) => (h : Json))).toArray)]
+  -- spec on the implementation's own output: an upstream is touched only if the independent evaluation of the
+  -- rules of ITS target admits the peer (and every X-Forwarded-For element); anything but a served request leaves
+  -- every upstream untouched
+  let refs := arrD impl "refs"
+  let servedOut := ioutcome == "200" || ioutcome == "echo"
+  let known := servedOut || ioutcome == "403" || ioutcome == "404" || ioutcome == "502" || ioutcome == "closed"
+    || ioutcome == "error"
+  let each := (ihits.zip refs).all fun (h, ref) =>
+    h == 0 || (if isHTTP then specDecision ref (some false) none else specDecision ref none (some false))
+  let spec := known && ihits.length == n && refs.length == n && each && (servedOut || ihits.all (· == 0))
+  -- class: what the first target does with the peer, and whether the instance a second lookup would return is up
+  -- and would have to refuse this peer
+  let deniesAt (i : Nat) : Bool := match ts[i]? with
+    | some t => if isHTTP then accessDeniedHTTP goParsers t.rules peer.toList xff else accessDeniedTCP t.rules tcpPeer
+    | none => false
+  let nextRefuses := n ≥ 2 && aliveOf 1 && deniesAt 1
+  let cls : String := match res with
+    | .noRoute => "noroute"
+    | .forbidden => "refused"
+    | .dialFailed _ => if nextRefuses then "down-next-refuses" else "down"
+    | _ => "served"
+  let tag := proto ++ (if kind != "" then "/" ++ kind else "") ++ (if pp then "+pp" else "") ++ "-n" ++ toString n ++ "-" ++ cls
+  return ({ model := m, agree := m == implCore, spec := spec,
+            nontrivial := ts.any (fun t => !t.rules.isEmpty), tag := tag } : Verdict).toJson
+
+/-- c12.race — the first requests for a fresh target arrive together: every worker has to get the decision a single
+request gets (`first_requests_agree`). Even workers ask `AccessDeniedHTTP`, odd ones `AccessDeniedTCP`. -/
+def raceH : Handler := fun inp impl => do
+  let allow := getStrD inp "allow"
+  let deny := getStrD inp "deny"
+  let remote := getStrD inp "remote"
+  let xff ← strList ((inp.getObjVal? "xff").toOption.getD Json.null)
+  let tcp := tcpPeerOf ((inp.getObjVal? "tcp").toOption.getD Json.null)
+  let workers := natD inp "workers"
+  let rounds := natD inp "rounds"
+  let (rules, err) := processAccessRules goParsers allow.toList deny.toList
+  let dh := accessDeniedHTTP goParsers rules remote.toList xff
+  let dt := accessDeniedTCP rules tcp
+  let nh := rounds * ((workers + 1) / 2)
+  let nt := rounds * (workers / 2)
+  let counts (d : Bool) (k : Nat) : Json := Json.mkObj [("denied", if d then k else 0), ("admitted", if d then 0 else k)]
+  let m := Json.mkObj [("http", counts dh nh), ("tcp", counts dt nt)]
+  let ih := (impl.getObjVal? "http").toOption.getD Json.null
+  let it := (impl.getObjVal? "tcp").toOption.getD Json.null
+  let implCore := Json.mkObj [("http", Json.mkObj [("denied", natD ih "denied"), ("admitted", natD ih "admitted")]),
+    ("tcp", Json.mkObj [("denied", natD it "denied"), ("admitted", natD it "admitted")])]
+  let ref := (impl.getObjVal? "ref").toOption.getD Json.null
+  -- spec: every answer was given, and an admitted answer is justified by the independent evaluation
+  let spec := natD ih "denied" + natD ih "admitted" == nh && natD it "denied" + natD it "admitted" == nt
+    && (natD ih "admitted" == 0 || specDecision ref (some false) none)
+    && (natD it "admitted" == 0 || specDecision ref none (some false))
+  let tag := "race-" ++ (match err with | some _ => "badrule" | none => modeOf allow deny)
+    ++ (if dh then "-http-denied" else "-http-admitted") ++ (if dt then "-tcp-denied" else "-tcp-admitted")
+  return ({ model := m, agree := m == implCore, spec := spec, nontrivial := !rules.isEmpty, tag := tag } : Verdict).toJson
+
 def streams : List (String × Handler) :=
-  [("c12.parse", parseH), ("c12.decide", decideH), ("c12.tcp", tcpH), ("c12.auth", authH), ("c12.authseq", authSeqH), ("c12.gate", gateH), ("c12.grpc", grpcH)]
+  [("c12.parse", parseH), ("c12.decide", decideH), ("c12.tcp", tcpH), ("c12.auth", authH), ("c12.authseq", authSeqH), ("c12.gate", gateH), ("c12.grpc", grpcH),
+   ("c12.multi", multiH), ("c12.race", raceH)]
 end Fabio.Driver.C12
